@@ -170,22 +170,25 @@ CHECKS['C05'] = {
 }
 
 
-def str_job(mode, name, n, letters=4, san='', faults=0, deadline=100):
+def str_job(mode, name, n, letters=4, san='', faults=0, deadline=100, uchar=False):
     args = ['--mode', mode, '--n', n, '--letters', letters, '--faults', faults, '--deadline', deadline]
-    return {'name': name, 'build_name': 'str%s' % ('-asan' if san else ''), 'harness': ['harness/str.cpp'],
-            'repo_srcs': ['src/str.c', 'src/utf.c', 'src/a.c'], 'san': san, 'args': args}
+    # uchar: plain char unsigned, as on the ARM / PowerPC / RISC-V ABIs
+    return {'name': name, 'build_name': 'str%s%s' % ('-asan' if san else '', '-uchar' if uchar else ''), 'harness': ['harness/str.cpp'],
+            'repo_srcs': ['src/str.c', 'src/utf.c', 'src/a.c'], 'san': san, 'args': args, 'defs': ['-funsigned-char'] if uchar else []}
 
 
 def c06_jobs(tier):
     if tier == 'quick':
         return [str_job('rich', 'str-rich-n6-4letters', 6), str_job('rich', 'str-rich-n9-2letters', 9, 2), str_job('length', 'str-length-n40', 40),
                 str_job('cmp', 'str-cmp-len4', 4), str_job('rich', 'str-rich-asan-n4', 4, san='asan'), str_job('rich', 'str-rich-asan-n9-2letters', 9, 2, san='asan'),
-                str_job('length', 'str-length-asan-n40', 40, san='asan')]
+                str_job('length', 'str-length-asan-n40', 40, san='asan'),
+                str_job('rich', 'str-rich-uchar-n6-4letters', 6, uchar=True), str_job('cmp', 'str-cmp-uchar-len4', 4, uchar=True)]
     D = 2400
     return [str_job('rich', 'str-rich-n8-4letters', 8, deadline=D), str_job('rich', 'str-rich-n10-3letters', 10, 3, deadline=D), str_job('rich', 'str-rich-n13-2letters', 13, 2, deadline=D),
             str_job('length', 'str-length-n72', 72, deadline=D), str_job('cmp', 'str-cmp-len5', 5, deadline=D),
             str_job('rich', 'str-rich-asan-n6', 6, san='asan', deadline=D), str_job('rich', 'str-rich-asan-n10-2letters', 10, 2, san='asan', deadline=D),
-            str_job('length', 'str-length-asan-n72', 72, san='asan', deadline=D)]
+            str_job('length', 'str-length-asan-n72', 72, san='asan', deadline=D),
+            str_job('rich', 'str-rich-uchar-n8-4letters', 8, uchar=True, deadline=D), str_job('cmp', 'str-cmp-uchar-len5', 5, uchar=True, deadline=D)]
 
 
 CHECKS['C06'] = {
@@ -288,6 +291,7 @@ def c17_jobs(tier):
     src = ['src/crc.c', 'src/hash.c', 'src/a.c']
     jobs = grid_jobs('crc', 'harness/crc.cpp', src, tier, 16)
     jobs += grid_jobs('crc-asan', 'harness/crc.cpp', src, 'quick', 4, san='asan')
+    jobs += grid_jobs('crc-uchar', 'harness/crc.cpp', src, 'quick', 4, defs=['-funsigned-char'])  # plain char unsigned (ARM / PowerPC / RISC-V ABIs)
     return jobs
 
 
